@@ -9,7 +9,8 @@ git -C /repo worktree remove --force "$wt" 2>/dev/null; rm -rf "$base"; mkdir -p
 trap 'git -C /repo worktree remove --force "$wt" 2>/dev/null; rm -rf "$base"' EXIT
 git -C /repo worktree add -q --detach "$wt" HEAD || exit 9
 git -C "$wt" apply "$patch" || git -C "$wt" apply --3way "$patch" || { echo "patch does not apply"; exit 9; }
-rsync -a --exclude .build --exclude .git --exclude replay --exclude evidence --exclude seeded /verif/ "$vd/"
+# the committed state of /verif (not the working tree, which may be mid-edit)
+mkdir -p "$vd"; git -C /verif archive HEAD -- . ':!seeded' ':!evidence' | tar -x -C "$vd"
 mkdir -p "$vd/evidence" "$vd/replay"
 out="${EVAL_OUT:-/tmp/evout}/$name"; mkdir -p "$out"
 VERIF_REPO="$wt" VERIF_DIR="$vd" timeout 3600 "$vd/check" "$prop" "$tier" > "$out/check.log" 2>&1
